@@ -568,6 +568,36 @@ def run_table_streams(n, rep):
                          detail={"observed": repr(got)[:100] if st != "ok" else [len(x) for x in got], "expected_lengths": [len(x) for x in want]})
 
 
+def run_high_clusters(rep):
+    """Roland files over the HIGHEST cluster numbers a table can hold (16-bit numbers with the top bit set, the last cluster in
+    front of the reserved entries) in a table of the real size over a 600 MB position-coded virtual disk: every injective
+    chain of <= 3 clusters over 6 cluster numbers, from every cluster offset"""
+    from smpl_extract.roland.s7xx import fat as RF
+    from smpl_extract.util.fat import SectorLink, add_to_sector_links
+    from mcv.gen import cue as Q
+    N = RF.FAT_NUM_ENTRIES
+    CL = 0x2400
+    top = N - 12
+    pool = [2, 0x7FFF, 0x8000, 0x8001, 0xC000, top]
+    for k in (1, 2, 3):
+        for ch in itertools.permutations(pool, k):
+            def go():
+                sl = [SectorLink()] * N
+                add_to_sector_links(list(ch), sl)
+                table = RF.RolandFileAllocationTable(Q.VirtualBin(CL * N), N, sl)
+                return [list(table.get_path(ch[0]))] + [table.get_file(ch[0], o).read(-1) for o in range(len(ch))]
+            st, got = guarded(go, 20.0)
+            case = {"seam": "roland_high_clusters", "chain": list(ch)}
+            want = [list(ch)] + [b"".join(Q.frames_bytes(c * CL, CL) for c in ch[o:]) for o in range(len(ch))]
+            if st == "ok" and got == want:
+                rep.case(case, klass="high-clusters-exact", nontrivial=True)
+            else:
+                rep.case(case, ok=False, klass="high-cluster-file-wrong", nontrivial=True,
+                         sig="roland-high:" + (st if st != "exc" else "raised:" + exc_sig(got)),
+                         detail={"observed": repr(got)[:120] if st != "ok" else [got[0]] + [len(x) for x in got[1:]],
+                                 "expected_lengths": [len(x) for x in want[1:]]})
+
+
 class Check(CheckBase):
     id = "C07"
     level = "model_checking"
@@ -581,7 +611,7 @@ class Check(CheckBase):
             "(c') all tables over 3 (quick) / 4 (thorough) scanned cells x free-cluster count word {1,2,3,4,5,15,16,0xFFF1,0xFFFF} "
             "x the four accepted version-flag pairs (redundant header words must not influence any chain); (d) FileStream.readall over every injective chain of "
             "<=n sectors; (e) the streams the tables hand out (AKAI get_segment, Roland get_file) for every injective chain of <=4 "
-            "(thorough 5) sectors: resolved four times, read to the end twice and in turn through two handles, Roland files also from every cluster offset 1..len-1 (the tail of the same walk); (f) the chain LENGTH as a dimension: one well-formed chain of 1..8000 / all sectors (AKAI 11385, Roland 65523 clusters) in a table of the real size, laid out ascending / descending / as a stride walk, and the same chain closed into a cycle (judged on termination only); (g) 18 two-partition AKAI images through the real image parser, one after the other in one process: each partition's table resolves its own file's chain and its stream delivers that partition's sectors; Roland images whose files lie on every injective chain of <= 3 clusters that touches the last or last-but-one cluster the image file holds. states = (table,start) combinations; transitions = table element reads performed by the "
+            "(thorough 5) sectors: resolved four times, read to the end twice and in turn through two handles, Roland files also from every cluster offset 1..len-1 (the tail of the same walk), and Roland files over the highest cluster numbers (2, 0x7FFF, 0x8000, 0x8001, 0xC000, the last cluster) of a real-size table on a 600 MB virtual disk, every injective chain of <=3 from every offset; (f) the chain LENGTH as a dimension: one well-formed chain of 1..8000 / all sectors (AKAI 11385, Roland 65523 clusters) in a table of the real size, laid out ascending / descending / as a stride walk, and the same chain closed into a cycle (judged on termination only); (g) 18 two-partition AKAI images through the real image parser, one after the other in one process: each partition's table resolves its own file's chain and its stream delivers that partition's sectors; Roland images whose files lie on every injective chain of <= 3 clusters that touches the last or last-but-one cluster the image file holds. states = (table,start) combinations; transitions = table element reads performed by the "
             "implementation (counted by list proxies, which are also the non-termination detector). "
             "non-trivial = reference chain has >=2 sectors or is malformed")
     assumptions = ["well-formed as worded in the statement: distinct in-range sectors, ends in an end marker (or last "
@@ -629,6 +659,7 @@ class Check(CheckBase):
         out.append({"seam": "image_tables"})
         out.append({"seam": "streams", "n": 5 if self.quick else 6})
         out.append({"seam": "table_streams", "n": 4 if self.quick else 5})
+        out.append({"seam": "high_clusters"})
         return out
 
     def _class_representatives(self, pats):
@@ -664,6 +695,8 @@ class Check(CheckBase):
             run_long(shard["fmt"], shard["layout"], rep, steps)
         elif shard["seam"] == "streams":
             run_streams(shard["n"], rep)
+        elif shard["seam"] == "high_clusters":
+            run_high_clusters(rep)
         elif shard["seam"] == "table_streams":
             run_table_streams(shard["n"], rep)
         rep.states += rep.evaluations - before
@@ -683,6 +716,10 @@ class Check(CheckBase):
                 check_roland_table(RF, case["table"], ROLAND_SMALL, 2, 7, sub, steps, "roland_fat16")
         elif seam == "roland_fat65536":
             run_roland_embedded([case["cells"]], sub, steps, hdrs=(case.get("hdr", 0),))
+        elif seam == "roland_high_clusters":
+            run_high_clusters(sub)
+            sub.violations = [v for v in sub.violations if v["case"].get("chain") == case["chain"]]
+            sub.viol_count = len(sub.violations)
         elif seam in ("akai_segments", "roland_files"):
             run_table_streams(case["n"], sub)
             sub.violations = [v for v in sub.violations if v["case"].get("chain") == case["chain"] and v["case"]["seam"] == seam]
